@@ -243,7 +243,11 @@ def _norm0(t):
     if h == 'index':
         return ('index', norm(t[1]), t[2])
     if h == 'leafarg':
-        return ('leafarg', norm(t[1]), t[2])
+        base = norm(t[1])
+        # element handed to a closure by an iterator adaptor: for_each(iter, |x| ..), map, filter, any, all, ...
+        if base[0] == 'call' and re.search(r' as core::iter::Iterator>::(for_each|map|filter|any|all|try_for_each|inspect|find|position|filter_map)::<', base[1]) and t[2] == 2:
+            return ('elem', _strip_iter(base[2][0]))
+        return ('leafarg', base, t[2])
     return t
 
 
